@@ -1,5 +1,6 @@
 """C07 — filters built from accuracy targets are usable (sizing intervals) and encode fingerprints correctly."""
 from ..terms import TermBuilder, fmt, mk, const, subterms
+from ..terms import callee_is as _nm
 from ..guards import atomic_facts
 from ..intervals import ieval, float_facts_to_env, cancel_products, Iv
 from .common import self_field_term
@@ -124,7 +125,7 @@ def run(ctx):
                 # branch-free spelling of the same mask: u64::MAX >> (64 - l), defined and equal to 2^l - 1 exactly for 1 <= l <= 64 —
                 # admitted only if the constructor establishes that range for the field
                 def all_ones(x):
-                    return (x[0] == "call" and x[1].endswith("max_value")) or x == const(2 ** 64 - 1) or (x[0] == "namedconst" and x[1].endswith("MAX"))
+                    return (x[0] == "call" and _nm(x[1], "max_value")) or x == const(2 ** 64 - 1) or (x[0] == "namedconst" and _nm(x[1], "MAX"))
                 shr = mk("Shr", M[2][0], mk("Sub", const(64), l)) if (M[0] == "op" and M[1] == "Shr" and len(M[2]) == 2) else None
                 if shr is not None and M == shr and all_ones(M[2][0]) and ctor is not None:
                     from .common import construction_blocks
@@ -145,7 +146,7 @@ def run(ctx):
                 for x in alts:
                     if x == want:
                         continue
-                    if x[0] == "call" and x[1].endswith("max_value") or x == const(2 ** 64 - 1) or (x[0] == "namedconst" and x[1].endswith("MAX")):
+                    if x[0] == "call" and _nm(x[1], "max_value") or x == const(2 ** 64 - 1) or (x[0] == "namedconst" and _nm(x[1], "MAX")):
                         continue
                     okm = False
                 okf = okm and want in alts
@@ -177,7 +178,7 @@ def run(ctx):
         bs_ = ("field", selfp_, "bs")
         m_alts = [("call", "fixedbitset::FixedBitSet::len", (bs_,)), ("field", ("field", selfp_, "builder"), "m"), ("call", "hash_utils::HashIterBuilder::m", (("field", selfp_, "builder"),))]
         k_alts = [("field", selfp_, "k"), ("field", ("field", selfp_, "builder"), "k"), ("call", "hash_utils::HashIterBuilder::k", (("field", selfp_, "builder"),))]
-        x_alts = [s_ for s_ in subterms(body_) if s_[0] == "call" and (s_[1].endswith("::count") or s_[1].endswith("count_ones"))]
+        x_alts = [s_ for s_ in subterms(body_) if s_[0] == "call" and (s_[1].endswith("::count") or _nm(s_[1], "count_ones"))]
         atoms_ = {t_: "m" for t_ in m_alts}
         atoms_.update({t_: "k" for t_ in k_alts})
         atoms_.update({t_: "x" for t_ in x_alts})
